@@ -352,6 +352,52 @@ func kvReaderCache(rec *trace.Recorder, root string, seed int64, h int, sum *tra
 	sum.Extra["schedules"] = sum.Extra["schedules"].(int) + 1
 }
 
+// kvDoubleClose: two snapshots of one version, the first is closed twice (Close is idempotent: a snapshot shared by
+// several result sets is closed by each), then a compaction obsoletes the files of that version and the cleanup
+// runs: the files the second, still open snapshot retains stay until it is closed
+func kvDoubleClose(rec *trace.Recorder, root string, seed int64, h int, sum *trace.Summary) {
+	w := kvwrap.NewWorld(root, rec)
+	defer w.Drop()
+	rng := rand.New(rand.NewSource(seed))
+	opt := kv.DefaultStoreOption()
+	run := &kvRun{w: w, rec: rec, path: root, opt: opt, rng: rng, famOpt: map[string]kv.FamilyOption{}}
+	rec.Reset(trace.F{"mode": "concurrent", "h": h, "scenario": "double-close"})
+	if err := run.open(); err != nil {
+		sum.Unresolved = append(sum.Unresolved, "open: "+err.Error())
+		return
+	}
+	f, err := run.store.CreateFamily("10", kv.FamilyOption{Merger: unionMerger})
+	if err != nil {
+		sum.Unresolved = append(sum.Unresolved, "family: "+err.Error())
+		return
+	}
+	rec.Emit("Proj", trace.F{"proj": kvProj(run.store, w)})
+	for i := 0; i < 2+rng.Intn(3); i++ {
+		run.flush("10", 1+rng.Intn(3), false)
+	}
+	fam := int(f.ID())
+	a := f.GetSnapshot()
+	rec.Emit("SnapAcquire", snapFields("a", fam, a, opt.Levels, true))
+	b := f.GetSnapshot()
+	rec.Emit("SnapAcquire", snapFields("b", fam, b, opt.Levels, true))
+	a.Close()
+	rec.Emit("SnapClose", trace.F{"id": "a"})
+	for i := 0; i < 1+rng.Intn(2); i++ {
+		a.Close()
+		rec.Emit("SnapCloseAgain", trace.F{"id": "a"})
+	}
+	run.compact("10")
+	kv.VerifDeleteObsoleteFiles(f)
+	rec.Emit("Proj", trace.F{"proj": kvProj(run.store, w)})
+	rec.Emit("SnapRead", snapFields("b", fam, b, opt.Levels, false))
+	b.Close()
+	rec.Emit("SnapClose", trace.F{"id": "b"})
+	kv.VerifDeleteObsoleteFiles(f)
+	rec.Emit("Proj", trace.F{"proj": kvProj(run.store, w)})
+	run.closeStore()
+	sum.Extra["schedules"] = sum.Extra["schedules"].(int) + 1
+}
+
 // compactStarted triggers Family.Compact and reports whether a background job was started.
 func compactStarted(f kv.Family) bool {
 	snap := f.GetSnapshot()
@@ -409,6 +455,8 @@ func kvConcMain(args []string) int {
 			kvCleanupWindow(rec, root, rng.Int63(), h, sum)
 		} else if h%5 == 3 {
 			kvReaderCache(rec, root, rng.Int63(), h, sum)
+		} else if h%10 == 2 {
+			kvDoubleClose(rec, root, rng.Int63(), h, sum)
 		} else {
 			kvConcHistory(rec, root, rng.Int63(), h, sum)
 		}
